@@ -313,3 +313,103 @@ def native_registry(model, prop="*"):
             if isinstance(x, ast.Name) and x.id.startswith("Func"):
                 reg.setdefault(k.value, x.id)
     return reg
+
+
+def decision_list(func_node, max_paths=400):
+    """[(facts, returned expression AST)] for every path of a small function that ends in `return <expr>`:
+    facts is the frozenset of (test text, truth) established by the branches taken (`not`, `and` on the true side
+    and `or` on the false side are split).  The form is the same for a guard with early return, the inverted guard
+    with the result nested, and an if/else.  None when the function is not of that kind (loops, too many paths)."""
+    from ..cfg import CFG
+    from ..facts import split_test
+    if any(isinstance(n, (ast.For, ast.While, ast.Try, ast.With)) for n in ast.walk(func_node)):
+        return None
+    try:
+        g = CFG(func_node, implicit_exc=False)
+        paths = g.paths(max_paths=max_paths)
+    except OverflowError:
+        return None
+    out = []
+    for path in paths:
+        facts = set()
+        ret = None
+        for node, label in path:
+            if node.kind == "test" and label in ("true", "false"):
+                facts |= split_test(node.ast, label == "true")
+            elif node.kind == "return":
+                ret = node.ast.value
+        if ret is not None:
+            out.append((frozenset(facts), ret))
+    return out
+
+
+def raised_ctors(model, f, e, depth=0):
+    """Constructor calls a raise expression denotes: a direct call of a class, a statically named helper all of whose
+    returns are such calls, or a local bound to one.  None when it cannot be told."""
+    if isinstance(e, ast.Call):
+        callee = resolve_static_call(model, f, e)
+        if callee is None:
+            return [e]
+        if depth > 2:
+            return None
+        out = []
+        for r in ast.walk(callee.node):
+            if isinstance(r, ast.Return):
+                if r.value is None:
+                    return None
+                sub = raised_ctors(model, callee, r.value, depth + 1)
+                if sub is None:
+                    return None
+                out.extend(sub)
+        return out or None
+    if isinstance(e, ast.Name):
+        vals = [a.value for a in ast.walk(f.node) if isinstance(a, ast.Assign) and len(a.targets) == 1
+                and isinstance(a.targets[0], ast.Name) and a.targets[0].id == e.id]
+        handlers = [h for h in ast.walk(f.node) if isinstance(h, ast.ExceptHandler) and h.name == e.id]
+        if handlers and not vals:
+            return []          # re-raise of the caught exception object
+        out = []
+        for v in vals:
+            sub = raised_ctors(model, f, v, depth + 1)
+            if sub is None:
+                return None
+            out.extend(sub)
+        return out or None
+    return None
+
+
+
+
+def root_field_pred(model, func, field):
+    """Predicate e -> bool: does the expression denote `<root environment>.<field>`?  Accepted: self.getBase().<field>,
+    <local bound to self.getBase()>.<field>, a local bound to one of these, and a call of a method of the same class
+    whose only return is one of these (an accessor)."""
+    base_locals, field_locals = set(), set()
+
+    def is_base(e):
+        return norm(e) == "self.getBase()" or (isinstance(e, ast.Name) and e.id in base_locals)
+
+    def direct(e, fn=func):
+        if isinstance(e, ast.Attribute) and e.attr == field and is_base(e.value):
+            return True
+        if isinstance(e, ast.Call) and isinstance(e.func, ast.Attribute) and norm(e.func.value) == "self" \
+                and not e.args and fn.cls is not None:
+            acc = model.find_method(fn.cls, e.func.attr)
+            if acc is not None and acc is not fn:
+                rets = [r for r in ast.walk(acc.node) if isinstance(r, ast.Return)]
+                if len(rets) == 1 and rets[0].value is not None and norm(rets[0].value) == f"self.getBase().{field}":
+                    return True
+        return False
+
+    for _ in range(2):
+        for n in ast.walk(func.node):
+            if isinstance(n, ast.Assign) and len(n.targets) == 1 and isinstance(n.targets[0], ast.Name):
+                if norm(n.value) == "self.getBase()":
+                    base_locals.add(n.targets[0].id)
+                elif direct(n.value):
+                    field_locals.add(n.targets[0].id)
+
+    def pred(e):
+        return direct(e) or (isinstance(e, ast.Name) and e.id in field_locals)
+
+    return pred
